@@ -178,10 +178,19 @@ func randHistoryOp(r *rng, w *world) string {
 	pick := func() int { return live[r.intn(len(live))] }
 	t := pick()
 	sh := []int(w.ts[t].Shape())
+	// a scalar-shaped VIEW over a longer storage window (born from the slicing findings F2/F43): the
+	// one-element special cases of the engine write through it in ways the model only approximates
+	// (known-finding zone F49/F52); such tensors are not used as operands of elementwise operations
+	scalarWide := func(x *tensor.Dense) bool {
+		return x.IsScalar() && x.MemSize() > x.Dtype().Size()
+	}
 	sameShape := func(i int) []int {
 		var out []int
+		if scalarWide(w.ts[i]) {
+			return nil
+		}
 		for j, x := range w.ts {
-			if w.dead[j] {
+			if w.dead[j] || scalarWide(x) {
 				continue
 			}
 			if j != i && fints(x.Shape()) == fints(w.ts[i].Shape()) && x.Dtype() == w.ts[i].Dtype() {
@@ -260,6 +269,9 @@ func randHistoryOp(r *rng, w *world) string {
 			return fmt.Sprintf("bin:%s:%d:%d:%s", []string{"add", "sub", "mul"}[r.intn(3)], t, b, mode(sameShape(t)))
 		}
 	case 13:
+		if scalarWide(w.ts[t]) {
+			return ""
+		}
 		return fmt.Sprintf("bins:%s:%d:%d:%s:%s", []string{"add", "sub", "mul"}[r.intn(3)], t, r.rangeInt(0, 3), []string{"left", "right"}[r.intn(2)], mode(sameShape(t)))
 	case 14:
 		c := sameShape(t)
@@ -269,6 +281,9 @@ func randHistoryOp(r *rng, w *world) string {
 			return fmt.Sprintf("cmp:%s:%d:%d:same:safe", cmpOps[r.intn(len(cmpOps))], t, c[r.intn(len(c))])
 		}
 	case 15:
+		if scalarWide(w.ts[t]) {
+			return ""
+		}
 		return fmt.Sprintf("un:%s:%d:%s", []string{"neg", "square", "abs"}[r.intn(3)], t, mode(sameShape(t)))
 	case 16:
 		if len(sh) > 0 {
